@@ -37,6 +37,7 @@ var guardTable = map[string]string{
 }
 
 func runC19(c *Ctx) {
+	defer checkSessionCloneDeep(c, "C19.R6")
 	c19Store(c)
 	c19R4(c)
 	c19R5(c)
@@ -396,6 +397,16 @@ func c19R4(c *Ctx) {
 		isShared := shared[rt]
 		if rt == pkgStorage+".MemoryStore" {
 			isShared = false // judged by R1 (maps) — it has no other mutable fields
+		}
+		// registered clients are handed out by the store as one object for all requests: their
+		// getters are read-only. The package-level error values are shared by every request: the
+		// With* builders work on a copy.
+		short := rt[strings.LastIndex(rt, ".")+1:]
+		if strings.HasPrefix(short, "Default") && strings.Contains(short, "Client") && (strings.HasPrefix(fn.Name(), "Get") || strings.HasPrefix(fn.Name(), "Is")) {
+			isShared = true
+		}
+		if rt == pkgRoot+".RFC6749Error" && strings.HasPrefix(fn.Name(), "With") {
+			isShared = true
 		}
 		var bad []string
 		locks := false
